@@ -84,7 +84,7 @@ TNext ==
         ELSE /\ PrintT(<<"MISMATCH", l, (IF e.op = "Apply" THEN e.pre ELSE c), Expected(e)>>)   \* short: TLC wraps long lines
              /\ bad' = (bad \/ ~Stateless(e))
      /\ IF RawAgrees(e) THEN TRUE
-        ELSE (TLCGet(3) >= 10 \/ PrintT(<<"NOTE", l, e.op, e.rawhi, e.rawlo, CNext(e)>>)) /\ TLCSet(3, TLCGet(3) + 1)
+        ELSE (IF TLCGet(3) >= 10 THEN TRUE ELSE PrintT(<<"NOTE", l, e.op, e.rawhi, e.rawlo, CNext(e)>>)) /\ TLCSet(3, TLCGet(3) + 1)
      /\ c' = CNext(e)
   /\ TLCSet(2, l)
   /\ l' = l + 1
